@@ -419,6 +419,76 @@ fn mined_run(seed: u64, n: usize, idx: u64, peer_seed: u64, feat: u8) -> RunOutc
 }
 
 // ---------------------------------------------------------------------------
+// signatures at the edge of the byte budget
+// ---------------------------------------------------------------------------
+//
+// The reference compresses s2 into the same budget as falcon-rust; an encoder that is off by a bit at the
+// limit emits something only its own decoder reads. One falcon-rust key, a few hundred signatures under
+// entropy fault E4 (biased windows of varying length push the compressed length up to and over the budget,
+// so that the retry loop and the exact-fit cases are exercised); each must be accepted by the reference.
+
+fn edge_run<V: Variant, P: Peer>(seed: u64, run: u64, count: usize) -> RunOutcome {
+    let mut rng = Prng::new(report::run_seed(seed, "C16edge", run));
+    let mut out = RunOutcome::default();
+    out.stats.inc("runs");
+    out.stats.inc("runs.budget_edge_signatures");
+    let n = V::N;
+    let ks = rng.seed32();
+    let (sk, pk) = match world::keygen_sim::<V>(ks, None, None).0 {
+        Ok(k) => k,
+        Err(_) => return out,
+    };
+    let pkb = V::pk_to_bytes(&pk);
+    for i in 0..count {
+        let msg = rng.bytes(1 + i % 40);
+        let window = *rng.pick(&[8u64, 16, 24, 32, 48, 64, 96, 128, 192, 256, 384, 512, 2 * n as u64]);
+        let sp = SignPlan { stream_seed: rng.next_u64(), mode: Some(crate::entropy::Mode::BiasedWindow { window, sign: rng.below(2) as u8 }), fire: vec![] };
+        let (r, tr) = world::sign_sim::<V>(&sk, &msg, &sp, None);
+        let sig = match r {
+            Ok(s) => V::sig_to_bytes(&s),
+            Err(_) => continue, // liveness under entropy faults is C01's subject
+        };
+        out.stats.evaluations += 1;
+        out.stats.add("natural_compress_failures", *tr.probes.get("sign.compress_fail").unwrap_or(&0));
+        out.stats.distinct.insert(hash_bytes(9, &sig));
+        let ok_ref = P::verify(&msg, &pq::to_reference(&sig, P::SIG_HEADER), &pkb);
+        if !ok_ref {
+            let plan = json!({"kind": "edge", "n": n, "key_seed_hex": hex(&ks), "msg_hex": hex(&msg), "stream": sp.stream_seed, "window": window, "sign": match sp.mode { Some(crate::entropy::Mode::BiasedWindow { sign, .. }) => sign, _ => 0 }});
+            out.violations.push(Violation {
+                property: PROP,
+                class: format!("the reference verifier rejects a signature{} made by falcon-rust with a falcon-rust key", n),
+                detail: format!("signature {} of a budget-edge run (E4 window {}), compressed part {} bytes before padding", i, window, pq::to_reference(&sig, P::SIG_HEADER).len() - 41),
+                replay: plan,
+                run: (1 << 41) + 7000 + run,
+            });
+            break;
+        }
+    }
+    out
+}
+
+fn replay_edge(doc: &Value) -> Option<String> {
+    let n = doc.get("n")?.as_u64()? as usize;
+    let ks: [u8; 32] = unhex(doc.get("key_seed_hex")?.as_str()?)?.try_into().ok()?;
+    let msg = unhex(doc.get("msg_hex")?.as_str()?)?;
+    let sp = SignPlan { stream_seed: doc.get("stream")?.as_u64()?, mode: Some(crate::entropy::Mode::BiasedWindow { window: doc.get("window")?.as_u64()?, sign: doc.get("sign")?.as_u64()? as u8 }), fire: vec![] };
+    fn go<V: Variant, P: Peer>(ks: [u8; 32], msg: &[u8], sp: &SignPlan) -> Option<String> {
+        let (sk, pk) = world::keygen_sim::<V>(ks, None, None).0.ok()?;
+        let sig = V::sig_to_bytes(&world::sign_sim::<V>(&sk, msg, sp, None).0.ok()?);
+        if !P::verify(msg, &pq::to_reference(&sig, P::SIG_HEADER), &V::pk_to_bytes(&pk)) {
+            Some(format!("the reference verifier rejects a signature{} made by falcon-rust with a falcon-rust key", V::N))
+        } else {
+            None
+        }
+    }
+    if n == 512 {
+        go::<V512, Pq512>(ks, &msg, &sp)
+    } else {
+        go::<V1024, Pq1024>(ks, &msg, &sp)
+    }
+}
+
+// ---------------------------------------------------------------------------
 // deep batch: reference traffic verified by several threads at once
 // ---------------------------------------------------------------------------
 //
@@ -596,6 +666,9 @@ pub fn rerun(tier: Tier, seed: u64, run: u64) -> Option<RunOutcome> {
 }
 
 pub fn replay(doc: &Value) -> Option<String> {
+    if doc.get("kind").and_then(|k| k.as_str()) == Some("edge") {
+        return replay_edge(doc);
+    }
     if doc.get("kind").and_then(|k| k.as_str()) == Some("deep-rerun") {
         // re-execute the deep run (a pure function of seed and run index) in its own process
         let seed = doc.get("seed")?.as_u64()?;
@@ -634,6 +707,12 @@ pub fn check(tier: Tier, seed: u64) -> i32 {
         });
         rep.absorb(out);
     }
+    // signatures at the edge of the byte budget
+    {
+        let (r1024, r512, count) = if tier == Tier::Quick { (12u64, 4u64, 250usize) } else { (96, 32, 500) };
+        let out = report::parallel_runs(r1024 + r512, w, |run| if run < r1024 { edge_run::<V1024, Pq1024>(seed, run, count) } else { edge_run::<V512, Pq512>(seed, run, count) });
+        rep.absorb(out);
+    }
     match crate::props::run_deep_batch(PROP, tier, seed) {
         Ok(Some(o)) => rep.absorb(o),
         Ok(None) => {
@@ -644,7 +723,7 @@ pub fn check(tier: Tier, seed: u64) -> i32 {
             return 2;
         }
     }
-    rep.rule = "a case is one signature exchange: for a falcon-rust key pair (from a fresh seed, or from one of the pinned seeds whose key generation takes a rare branch) and a reference key pair (PQClean keygen with simulator-seeded randombytes; either the next one, or one selected among 8000 + 3000 (thorough 60000 + 24000) for an extreme feature: a coefficient +-127 in F or in the recomputed G, a coefficient of f or g at its field limit, a public key that is not a unit, a public-key coefficient 0 or q-1), each message is signed in all four (signer, key-origin) combinations, with keys crossing as bytes, and every signature is checked by both verifiers after re-framing (header 0x50|logn <-> 0x30|logn, zero padding stripped / added); before that, key bytes are imported and re-exported on this side and the public key is re-derived from the imported secret key; a deep batch (instrumented build) has 2-5 baton-scheduled threads, each mostly with its own reference public key, verify re-framed reference signatures under function-entry pre-emption; all exchanges are non-trivial; distinct = distinct signature bytes".into();
+    rep.rule = "a case is one signature exchange: for a falcon-rust key pair (from a fresh seed, or from one of the pinned seeds whose key generation takes a rare branch) and a reference key pair (PQClean keygen with simulator-seeded randombytes; either the next one, or one selected among 8000 + 3000 (thorough 60000 + 24000) for an extreme feature: a coefficient +-127 in F or in the recomputed G, a coefficient of f or g at its field limit, a public key that is not a unit, a public-key coefficient 0 or q-1), each message is signed in all four (signer, key-origin) combinations, with keys crossing as bytes, and every signature is checked by both verifiers after re-framing (header 0x50|logn <-> 0x30|logn, zero padding stripped / added); before that, key bytes are imported and re-exported on this side and the public key is re-derived from the imported secret key; 16 budget-edge runs sign 250 messages each under entropy fault E4 (biased windows of 8..2n samples) with one falcon-rust key and hand every signature to the reference verifier; a deep batch (instrumented build) has 2-5 baton-scheduled threads, each mostly with its own reference public key, verify re-framed reference signatures under function-entry pre-emption; all exchanges are non-trivial; distinct = distinct signature bytes".into();
     rep.assumptions = vec![
         "PQClean (pqcrypto-falcon 0.3.0) is the reference on honest traffic; a damaged exchange promises nothing about itself - damaged copies are delivered only to check that the genuine exchange that follows is unaffected".into(),
         "reference signatures whose compressed part exceeds this library's fixed frame cannot be re-framed and are counted as skipped".into(),
